@@ -145,11 +145,73 @@ def kinetics_rates_db(rng):
     return "phreeqc.dat", t
 
 
+def diffuse_layer(rng):
+    """SURFACE -diffuse_layer: explicit (Borkovec-Westall) integration of the diffuse layer: calc_all_g -> qromb_midpnt -> midpnt"""
+    k = rng.randint(0, 7)
+    t = "SOLUTION 1\n -units mol/kgw\n temp %d\n pH %.2f\n Na %.4g\n Ca %.4g\n S(6) %.4g\n Zn 1e-6\n Cl 1 charge\n" % (
+        12 + 2 * k, rng.uniform(5, 7), rng.uniform(0.002, 0.1), rng.uniform(0.0005, 0.007), rng.uniform(0.0002, 0.003))
+    t += "SURFACE 1\n -equilibrate 1\n -diffuse_layer %de-8\n Hfo_wOH %.3g 600 %.3g\n Hfo_sOH %.3g\nEND\n" % (
+        rng.randint(1, 8), rng.uniform(1e-4, 8e-4), rng.uniform(0.05, 0.4), rng.uniform(2.5e-6, 2e-5))
+    t += "USE solution 1\nUSE surface 1\nREACTION 1\n %s 1\n %.3g moles in %d steps\n" % (rng.choice(["HCl", "HNO3"]), rng.uniform(2e-4, 1.6e-3), rng.randint(4, 12))
+    t += SEL + " -molalities Hfo_wOH2+ Hfo_wO- Hfo_wOCa+ Hfo_sOZn+\nUSER_PUNCH 1\n -headings sigma psi dl_water dl_Na dl_Cl\n"
+    t += ' 10 PUNCH EDL("sigma", "Hfo"), EDL("psi", "Hfo"), EDL("water", "Hfo"), EDL("Na", "Hfo"), EDL("Cl", "Hfo")\nEND\n'
+    return "phreeqc.dat", t
+
+
+def donnan(rng):
+    t = "SOLUTION 1\n pH %.2f\n Na %.3g\n Cl %.3g charge\n Ca %.3g\n" % (rng.uniform(5, 8), rng.uniform(1, 100), rng.uniform(1, 100), rng.uniform(0.1, 5))
+    t += "SURFACE 1\n -equilibrate 1\n -donnan %.2ge-9%s\n Hfo_wOH %.3g 600 %.3g\n" % (
+        rng.uniform(1, 20), rng.choice(["", "\n -only_counter_ions true"]), rng.uniform(1e-4, 1e-3), rng.uniform(0.1, 1))
+    t += SEL + "USER_PUNCH 1\n -headings sigma psi dl_water dl_Na\n 10 PUNCH EDL(\"sigma\", \"Hfo\"), EDL(\"psi\", \"Hfo\"), EDL(\"water\", \"Hfo\"), EDL(\"Na\", \"Hfo\")\nEND\n"
+    t += "USE solution 1\nUSE surface 1\nREACTION 1\n NaOH 1\n %.3g in %d steps\nEND\n" % (rng.uniform(1e-4, 1e-3), rng.randint(2, 5))
+    return "phreeqc.dat", t
+
+
+def pitzer_etheta(rng):
+    """mixed-valence like-charged ions: the unsymmetrical mixing terms (ETHETA / ETHETAS) and their cached arguments"""
+    v = tuple(rng.uniform(50, 2500) for _ in range(6))
+    t = "SOLUTION 1\n units mmol/kgw\n temp %d\n pH 7\n Na %.4g\n K %.4g\n Mg %.4g\n Ca %.4g\n S(6) %.4g\n Cl %.4g charge\n" % ((rng.choice([5, 25, 60]),) + v)
+    t += SEL + " -saturation_indices Halite Gypsum Anhydrite\n -activities H2O Na+ Mg+2 SO4-2\nEND\nUSE solution 1\nEQUILIBRIUM_PHASES 1\n Gypsum 0 %.3g\n Halite 0 0\nEND\n" % rng.uniform(0.01, 1)
+    return "pitzer.dat", t
+
+
+def gas_pr(rng):
+    """Peng-Robinson gas phase at high pressure (three-root search) next to a solution"""
+    t = "SOLUTION 1\n temp %d\n pH 7\n Na 100\n Cl 100\nGAS_PHASE 1\n -fixed_volume\n -volume %.3g\n CO2(g) %.3g\n CH4(g) %.3g\n H2O(g) 0\n" % (
+        rng.choice([25, 50, 100]), rng.uniform(0.2, 2), rng.uniform(5, 150), rng.uniform(1, 80))
+    t += SEL + " -gases CO2(g) CH4(g) H2O(g)\nUSER_PUNCH 1\n -headings p vm phi\n 10 PUNCH PRESSURE, GAS_VM, PR_PHI(\"CO2(g)\")\nEND\n"
+    return "phreeqc.dat", t
+
+
+def ss_nonideal(rng):
+    t = "SOLUTION 1\n pH 5.9\n Ca %.3g\n Sr %.3g\n C(4) %.3g\nSOLID_SOLUTIONS 1\n Ca(x)Sr(1-x)CO3\n -comp1 Aragonite 0\n -comp2 Strontianite 0\n -Gugg_nondim %.3g %.3g\nEND\n" % (
+        rng.uniform(1, 5), rng.uniform(0.1, 2), rng.uniform(2, 8), rng.uniform(2, 4), rng.uniform(0, 1))
+    t += "USE solution 1\nUSE solid_solutions 1\nREACTION 1\n SrCO3 1\n %.3g in %d steps\n" % (rng.uniform(1e-4, 5e-3), rng.randint(2, 6)) + SEL + " -solid_solutions Aragonite Strontianite\nEND\n"
+    return "phreeqc.dat", t
+
+
 FAMILIES = [("speciation", speciation), ("exchange_surface", exchange_surface), ("gas", gas),
             ("kinetics_rk", lambda r: kinetics(r, False)), ("kinetics_cvode", lambda r: kinetics(r, True)),
             ("transport", lambda r: transport(r, False)), ("advection", advection), ("inverse", inverse), ("basic", basic),
             ("pitzer", pitzer), ("solid_solution", solid_solution), ("dump_store", dump_store), ("isotopes", isotopes),
-            ("sit", sit), ("llnl", llnl), ("cd_music", cd_music), ("kinetics_db_rate", kinetics_rates_db)]
+            ("sit", sit), ("llnl", llnl), ("cd_music", cd_music), ("kinetics_db_rate", kinetics_rates_db),
+            ("diffuse_layer", diffuse_layer), ("donnan", donnan), ("pitzer_etheta", pitzer_etheta), ("gas_pr", gas_pr),
+            ("ss_nonideal", ss_nonideal)]
+
+# engine paths that are rarely used and keep scratch state of their own between calls (integrator estimates, cached function
+# arguments, solver work arrays): a burst runs SEVERAL jobs of ONE such family on several threads at the same time, so that a
+# piece of that state turned process-wide is hit by two threads at once
+BURST_FAMILIES = ["diffuse_layer", "donnan", "cd_music", "pitzer_etheta", "sit", "kinetics_cvode", "inverse", "isotopes", "gas_pr",
+                  "ss_nonideal", "exchange_surface", "kinetics_rk"]
+
+
+def burst_jobs(rng, family, n):
+    f = dict(FAMILIES)[family]
+    out = []
+    for _ in range(n):
+        db, text = f(rng)
+        out.append((family, db, text))
+    return out
 
 # every database file shipped in /repo/database (some need another one in front and fail alone: the return code is then
 # part of the compared result)
